@@ -55,6 +55,8 @@ class LinearScaling(object):
             input_source)
 
     def scale(self, data):
+        # Ensure data is double type before scaling
+        data = data.astype(np.dtype('float64'), copy=False)
         return data * self.slope + self.intercept
 
 
@@ -137,7 +139,7 @@ class RtdScaling(object):
         # R(T) = R(0)[1 + A*T + B*T^2 + (T - 100)*C*T^3]
         # R(T) = V/I
 
-        r_t = data / self.current_excitation
+        r_t = data.astype(np.dtype('float64'), copy=False) / self.current_excitation
         r_t = _adjust_for_lead_resistance(
             r_t, CURRENT_EXCITATION, self.resistance_configuration, self.lead_wire_resistance)
 
@@ -445,6 +447,7 @@ class ThermocoupleScaling(object):
         """ Apply thermocouple scaling
         """
         # Note that the thermocouple conversions use mV for voltages, but TDMS uses uV.
+        data = data.astype(np.dtype('float64'), copy=False)
         if self.scaling_direction == 1:
             return 1000.0 * self.thermocouple.celsius_to_mv(data)
         else:
